@@ -545,10 +545,32 @@ class WcsSampler(object):
                 refined_pix.reshape((-1, 2)), 1
             ).reshape((n1, n2, 2))
 
+            # Find the extreme value at pixel resolution.
+
+            refined_lat = refined_world[..., 1]
+            r1, r2 = np.unravel_index(arg_op(refined_lat), refined_lat.shape)
+
+            # Close to a celestial pole the latitude varies like a cone, not a
+            # plane, so pixel resolution can still miss the true extreme by a
+            # good fraction of a pixel (e.g. when an image edge passes within
+            # half a pixel of the pole). Resample the neighbourhood of the best
+            # pixel-resolution sample much more finely.
+
+            N_FINE = 33
+            fine_idx1 = np.linspace(
+                refined_idx1[max(r1 - 1, 0)], refined_idx1[min(r1 + 1, n1 - 1)], N_FINE
+            )
+            fine_idx2 = np.linspace(
+                refined_idx2[max(r2 - 1, 0)], refined_idx2[min(r2 + 1, n2 - 1)], N_FINE
+            )
+            fine_pix = np.empty((N_FINE, N_FINE, 2))
+            fine_pix[..., 0] = fine_idx1.reshape((-1, 1))
+            fine_pix[..., 1] = fine_idx2.reshape((1, -1))
+            fine_lat = self._wcs.wcs_pix2world(fine_pix.reshape((-1, 2)), 1)[:, 1]
+
             # Find the *real* extreme value and convert to radians
 
-            refined_grid = refined_world[..., 1].flatten()
-            return refined_grid[arg_op(refined_grid)] * D2R
+            return fine_lat[arg_op(fine_lat)] * D2R
 
         lat_min = refine_lat(np.argmin)
         lat_max = refine_lat(np.argmax)
